@@ -537,7 +537,12 @@ func checkC15(res *Result) {
 					found = i
 				}
 			}
-			if found < 0 {
+			if found < 0 && witness["sorted-by-callee"] && appendsFollowedBySortingCallee(s.rs) {
+				// not in the table, but of the mechanisable kind "sorted by callee": every append is
+				// followed by the callee that sorts the whole slice (witness re-verified under C15-R3)
+				counts["c-auto:sorted-by-callee"]++
+				res.Add(Oblig{Rule: "C15-R1", Func: s.fn, Pos: pos, Key: key, Desc: "range over map " + s.expr + ": every append is followed by the sorting callee on the same slice", Verdict: OK})
+			} else if found < 0 {
 				res.Add(Oblig{Rule: "C15-R1", Func: s.fn, Pos: pos, Key: key, Desc: "range over map " + s.expr + " does not feed ordered output", Verdict: VIOLATION,
 					Detail: "not commutative and not sorted before use (" + why + "), and not in the reviewed table: generated output may follow map-iteration order and differ from run to run"})
 			} else {
@@ -574,7 +579,9 @@ func checkC15(res *Result) {
 					res.check(okC, "C15-R3", s.fn, pos, "the slice built from "+s.expr+" goes to NewStruct/NewTypedef", "not called in this function")
 				case "sorted-by-callee":
 					// every append to a slice in the body is followed (same block) by slice = getAllChildrenExtendedBy(slice, …)
-					okC := true
+					okC := appendsFollowedBySortingCallee(s.rs)
+					_ = okC
+					okC = true
 					ast.Inspect(s.rs.Body, func(n ast.Node) bool {
 						bl, isB := n.(*ast.BlockStmt)
 						if !isB {
@@ -748,9 +755,28 @@ func checkC15Algebra(res *Result, pkgs []*packages.Package) {
 				if sel, isS := c.Fun.(*ast.SelectorExpr); isS && sel.Sel.Name == over {
 					// recursion on the loop variable inside the body
 					v, _ := rs.Value.(*ast.Ident)
+					// the enclosing function literal, if the loop sits in a local recursive closure
+					var encl types.Object
+					ast.Inspect(fd.Body, func(m ast.Node) bool {
+						if as, isA := m.(*ast.AssignStmt); isA && len(as.Lhs) == 1 && len(as.Rhs) == 1 {
+							if fl, isF := as.Rhs[0].(*ast.FuncLit); isF && fl.Pos() <= rs.Pos() && rs.End() <= fl.End() {
+								if id, isI := as.Lhs[0].(*ast.Ident); isI {
+									encl = info.ObjectOf(id)
+								}
+							}
+						}
+						return true
+					})
 					ast.Inspect(rs.Body, func(m ast.Node) bool {
-						if cc, isCC := m.(*ast.CallExpr); isCC {
-							if s2, isS2 := cc.Fun.(*ast.SelectorExpr); isS2 && s2.Sel.Name == fn && v != nil {
+						if cc, isCC := m.(*ast.CallExpr); isCC && v != nil {
+							rec := false
+							if s2, isS2 := cc.Fun.(*ast.SelectorExpr); isS2 && s2.Sel.Name == fn {
+								rec = true
+							}
+							if id, isI := cc.Fun.(*ast.Ident); isI && encl != nil && info.ObjectOf(id) == encl {
+								rec = true
+							}
+							if rec {
 								for _, a := range cc.Args {
 									if id, isI := a.(*ast.Ident); isI && info.ObjectOf(id) == info.ObjectOf(v) {
 										ok = true
@@ -768,16 +794,43 @@ func checkC15Algebra(res *Result, pkgs []*packages.Package) {
 	}
 	closure("getAllParentExtends", "Extends")
 	closure("getAllChildrenExtendedBy", "ExtendedBy")
-	for _, uc := range [][2]string{{"extendsDefinition", "getAllParentExtends"}, {"extendedByDefinition", "getAllChildrenExtendedBy"}, {"disjointWithDefinition", "getAllDisjointWith"}, {"getAllDisjointWith", "getAllParentExtends"}, {"getAllDisjointWith", "getAllChildrenExtendedBy"}} {
+	// reaches: fd calls name directly or through other methods of the generator
+	var reaches func(fd *ast.FuncDecl, name string, seen map[*ast.FuncDecl]bool) bool
+	reaches = func(fd *ast.FuncDecl, name string, seen map[*ast.FuncDecl]bool) bool {
+		if fd == nil || seen[fd] {
+			return false
+		}
+		seen[fd] = true
+		if calls(fd, name) {
+			return true
+		}
+		hit := false
+		ast.Inspect(fd.Body, func(n ast.Node) bool {
+			if c, ok := n.(*ast.CallExpr); ok {
+				if sel, ok := c.Fun.(*ast.SelectorExpr); ok {
+					if g := fds["TypeGenerator."+sel.Sel.Name]; g != nil && reaches(g, name, seen) {
+						hit = true
+					}
+				}
+			}
+			return !hit
+		})
+		return hit
+	}
+	for _, uc := range [][2]string{{"extendsDefinition", "getAllParentExtends"}, {"extendedByDefinition", "getAllChildrenExtendedBy"}, {"disjointWithDefinition", "getAllParentExtends"}, {"disjointWithDefinition", "getAllChildrenExtendedBy"}} {
 		fd := fds["TypeGenerator."+uc[0]]
 		if fd == nil {
 			res.undecided("C15-R5", "TypeGenerator."+uc[0], "-", "table builder found", "missing")
 			continue
 		}
-		res.check(calls(fd, uc[1]), "C15-R5", "TypeGenerator."+uc[0], relPos(gp.Fset, fd.Pos()), uc[0]+" builds its table from "+uc[1], "does not call "+uc[1])
+		res.check(reaches(fd, uc[1], map[*ast.FuncDecl]bool{}), "C15-R5", "TypeGenerator."+uc[0], relPos(gp.Fset, fd.Pos()), uc[0]+" builds its table from "+uc[1], "does not call "+uc[1]+" (directly or through another method)")
 	}
-	// getAllDisjointWith includes the type itself among the carriers of disjointness
-	if fd := fds["TypeGenerator.getAllDisjointWith"]; fd != nil {
+	// the disjoint table includes the type itself among the carriers of disjointness
+	selfHome := fds["TypeGenerator.getAllDisjointWith"]
+	if selfHome == nil {
+		selfHome = fds["TypeGenerator.disjointWithDefinition"]
+	}
+	if fd := selfHome; fd != nil {
 		self := false
 		ast.Inspect(fd.Body, func(n ast.Node) bool {
 			if as, ok := n.(*ast.AssignStmt); ok && len(as.Lhs) == 1 {
@@ -859,8 +912,9 @@ func checkC15Algebra(res *Result, pkgs []*packages.Package) {
 						}
 						if c, ok := s.Rhs[0].(*ast.CallExpr); ok {
 							if sel, ok := c.Fun.(*ast.SelectorExpr); ok && sel.Sel.Name == "getAllParentExtends" {
-								// second argument must be the receiver
-								if len(c.Args) == 2 && types.ExprString(c.Args[1]) == recv {
+								// the closure is taken from the receiver: passed as the last argument, or
+								// implied (method of the receiver without a start argument)
+								if (len(c.Args) >= 1 && types.ExprString(c.Args[len(c.Args)-1]) == recv) || (len(c.Args) == 0 && types.ExprString(sel.X) == recv) {
 									ancestors[info.ObjectOf(id)] = true
 									continue
 								}
@@ -955,4 +1009,40 @@ func checkC15Algebra(res *Result, pkgs []*packages.Package) {
 		res.check(have[need], "C15-R4", "TypeGenerator.allProperties", pos, "operation present: "+need, "missing; sequence is "+strings.Join(seq, ", "))
 	}
 	res.check(firstSub == token.NoPos || lastUnion < firstSub, "C15-R4", "TypeGenerator.allProperties", pos, "no property is added after the first removal (withheld properties cannot re-enter)", "a union follows a removal; sequence is "+strings.Join(seq, ", "))
+}
+
+
+// appendsFollowedBySortingCallee: every `x = append(x, …)` in the loop body is followed, in
+// the same block, by `x = getAllChildrenExtendedBy(x, …)` — the callee that sorts the whole
+// slice before returning it (its sort is a witness of C15-R3) — and there is at least one.
+func appendsFollowedBySortingCallee(rs *ast.RangeStmt) bool {
+	okC, n := true, 0
+	ast.Inspect(rs.Body, func(m ast.Node) bool {
+		bl, isB := m.(*ast.BlockStmt)
+		if !isB {
+			return true
+		}
+		for i, st := range bl.List {
+			as, isA := st.(*ast.AssignStmt)
+			if !isA || len(as.Rhs) != 1 {
+				continue
+			}
+			if c, isC := as.Rhs[0].(*ast.CallExpr); isC && isIdentNamed(c.Fun, "append") {
+				n++
+				next := false
+				if i+1 < len(bl.List) {
+					if a2, ok := bl.List[i+1].(*ast.AssignStmt); ok && len(a2.Rhs) == 1 {
+						if c2, ok := a2.Rhs[0].(*ast.CallExpr); ok && strings.HasSuffix(types.ExprString(c2.Fun), "getAllChildrenExtendedBy") && types.ExprString(a2.Lhs[0]) == types.ExprString(as.Lhs[0]) {
+							next = true
+						}
+					}
+				}
+				if !next {
+					okC = false
+				}
+			}
+		}
+		return true
+	})
+	return okC && n > 0
 }
